@@ -22,6 +22,8 @@ classes
 
 from __future__ import annotations
 
+import re
+
 import ast
 from dataclasses import dataclass
 from dataclasses import field
@@ -262,6 +264,11 @@ class PartialOps:
                     if isinstance(op, ast.LtE) and not branch and c >= 0:
                         ev.append(f"minlen:{c + 1}@" + xp)
                         ev.append("nonempty@" + xp)
+            # X is not None
+            if isinstance(right, ast.Constant) and right.value is None and isinstance(op, (ast.Is, ast.IsNot)):
+                xp0 = path_of(left)
+                if xp0 and (isinstance(op, ast.IsNot)) == branch:
+                    ev.append("notnone@" + xp0)
             # k in T
             if isinstance(op, ast.In) and branch or isinstance(op, ast.NotIn) and not branch:
                 kp = path_of(left)
@@ -709,10 +716,18 @@ class PartialOps:
 
     # --------------------------------------------------------------- MEMBER
     def _member(self, fn: FuncInfo, node: ast.Compare, left: ast.expr, right: ast.expr, out: List[PSite]) -> None:
-        if isinstance(right, (ast.Tuple, ast.List, ast.Set)):
-            return  # literal container
+        if isinstance(right, (ast.Tuple, ast.List)):
+            return  # literal container, membership by ==
         rt = self._tynames(fn, right)
         lt = self._tynames(fn, left)
+        if isinstance(right, (ast.Set, ast.Dict)):
+            # a set / dict display hashes the left operand
+            lk1 = self._kinds(fn, node, left)
+            if (lt is not None and lt <= HASHABLE_TYPES) or (lk1 is not None and lk1 <= {STRING, INT, FLOAT, BOOLEAN, "null"}):
+                out.append(PSite(fn, node, "MEMBER", [], discharged="left operand hashable"))
+            else:
+                out.append(PSite(fn, node, "MEMBER", ["TypeError"], note="membership in a set display hashes the left operand, which may be a list or a dict"))
+            return
         # folded constant containers
         try:
             v = self._fold(fn, right)
@@ -932,7 +947,58 @@ class PartialOps:
                     else:
                         out.append(PSite(fn, node, "TABLE", ["KeyError"], note=f"characters {sorted(chars - keys)} of the token value are not keys"))
                     return
+        # key is a group of a match of a constant pattern, and the group can only match keys:
+        # `sign = match.group("SIGN")` with `(?P<SIGN>[-+])`, looked up once `sign is not None`
+        if isinstance(key, ast.Name) and (f"notnone@{key.id}" in facts or f"nonempty@{key.id}" in facts):
+            lang = self._group_language(fn, key.id)
+            if lang is not None:
+                words, why = lang
+                if words <= keys:
+                    out.append(PSite(fn, node, "TABLE", [], discharged=f"the key is {why}, which matches only {sorted(words)}: all keys"))
+                else:
+                    out.append(PSite(fn, node, "TABLE", ["KeyError"], note=f"{why} can match {sorted(words - keys)}, which are not keys"))
+                return
         out.append(PSite(fn, node, "TABLE", ["KeyError"], note="key not shown to be present"))
+
+    def _single_def(self, fn: FuncInfo, name: str) -> Optional[ast.expr]:
+        stores = [n for n in ast.walk(fn.node) if isinstance(n, ast.Name) and n.id == name and isinstance(n.ctx, (ast.Store, ast.Del))]
+        if len(stores) != 1 or name in {a.arg for a in ast.walk(fn.node) if isinstance(a, ast.arg)}:
+            return None
+        for n in ast.walk(fn.node):
+            if isinstance(n, ast.Assign) and len(n.targets) == 1 and n.targets[0] is stores[0]:
+                return n.value
+            if isinstance(n, ast.AnnAssign) and n.target is stores[0]:
+                return n.value
+        return None
+
+    def _group_language(self, fn: FuncInfo, name: str) -> Optional[Tuple[Set[str], str]]:
+        """`name = M.group("G")`, `M = P.match(...)`, P a constant pattern whose group G has a small finite language."""
+        from . import regexast
+        from .consteval import RegexConst
+
+        d = self._single_def(fn, name)
+        if not (isinstance(d, ast.Call) and isinstance(d.func, ast.Attribute) and d.func.attr == "group" and len(d.args) == 1 and not d.keywords
+                and isinstance(d.args[0], ast.Constant) and isinstance(d.args[0].value, str) and isinstance(d.func.value, ast.Name)):
+            return None
+        m = self._single_def(fn, d.func.value.id)
+        if not (isinstance(m, ast.Call) and isinstance(m.func, ast.Attribute) and m.func.attr in ("match", "fullmatch", "search")):
+            return None
+        try:
+            pat = self._fold(fn, m.func.value)
+        except NotConst:
+            return None
+        if not isinstance(pat, RegexConst):
+            return None
+        try:
+            seq = regexast.named_group(pat.pattern, d.args[0].value, pat.flags)
+        except AnalysisError:
+            return None
+        if pat.flags & re.IGNORECASE:
+            return None
+        words = regexast.finite_language(seq)
+        if words is None:
+            return None
+        return set(words), f"group {d.args[0].value!r} of {ast.unparse(m.func.value)}"
 
     def _loop_node(self, fn: FuncInfo, var: str) -> Optional[ast.AST]:
         for n in ast.walk(fn.node):
